@@ -951,10 +951,19 @@ func runC04(c *Ctx) error {
 		if err := c.LoadReplay(&d); err != nil {
 			return err
 		}
+		var ic c04icase
+		if err := c.LoadReplay(&ic); err == nil && ic.Stream == "interp" {
+			c04interpStream(c, []c04case{d})
+			return nil
+		}
 		c04one(c, d)
 		return nil
 	}
 	stop := false
+	// programs for the second stream (three-way tie with the interpreter model): the whole
+	// corpus, every k-th program of the systematic families, the first random programs
+	var second []c04case
+	seq := 0
 	emit := func(d c04case) {
 		if stop || c.Enough() {
 			if !stop {
@@ -964,6 +973,19 @@ func runC04(c *Ctx) error {
 			return
 		}
 		c04one(c, d)
+		seq++
+		switch d.Origin {
+		case "corpus":
+			second = append(second, d)
+		case "random":
+			if len(second) < c.Pick(230, 2600) {
+				second = append(second, d)
+			}
+		default:
+			if (seq+int(c.Seed))%c.Pick(23, 3) == 0 {
+				second = append(second, d)
+			}
+		}
 	}
 	for _, p := range c04corpus() {
 		emit(c04case{Prog: p, Origin: "corpus"})
@@ -980,5 +1002,8 @@ func runC04(c *Ctx) error {
 	}
 	c.Extra["random_programs"] = nrand
 	c.Exhaustive = false
+	if !stop {
+		c04interpStream(c, second)
+	}
 	return nil
 }
